@@ -14,6 +14,7 @@ import (
 	"fmt"
 	"io"
 	"math/rand"
+	"os"
 	"path/filepath"
 	"strings"
 
@@ -71,7 +72,16 @@ func xlateTie(r *Result, mainPool *DriverPool, rng *rand.Rand, n int) error {
 	gpath := filepath.Join(filepath.Dir(mainPool.path), "gosrc")
 	dp, err := newDriverPool(gpath, 8)
 	if err != nil {
-		r.Violate("broken-correspondence", "xlate-exec driver", map[string]interface{}{"op": "xlate-exec", "path": gpath},
+		// what the translator could not translate (Gen.GoSrc.failures), to name the cause in the replay
+		fails := ""
+		if raw, rerr := os.ReadFile(filepath.Join(verifRoot(), "lean", "XzVerif", "Gen", "GoSrc.lean")); rerr == nil {
+			for _, ln := range strings.Split(string(raw), "\n") {
+				if strings.HasPrefix(ln, "def failures") {
+					fails = truncate(ln, 1500)
+				}
+			}
+		}
+		r.Violate("broken-correspondence", "xlate-exec driver", map[string]interface{}{"op": "xlate-exec", "path": gpath, "translation_failures": fails},
 			"the executable around the translated source (gosrc) is missing or does not start: the translation of the current source no longer builds — "+err.Error())
 		return nil
 	}
